@@ -42,11 +42,17 @@ theorem C01_rewrite_step_sound (env : Env) (s : Schema) (hs : s ∈ R.all) (p : 
   rw [hrec]; exact all_sound s hs p env hside hwt
 
 /-- **Eager folding computes the denotation**: whenever the folding model returns a value for a well-typed constant
-node (every operator with a proved bridge lemma: all but `reverse` and n-ary `concat`), that value is the
-SMT-LIB value of the node — at every width, for all constants. -/
+node, that value is the SMT-LIB value of the node — at every width, for all constants, for EVERY operator of the fragment
+(`Proven` is constantly true since the bridge lemmas for n-ary `Concat` and for `Reverse` — generic loop and the unrolled
+16/32/64-bit formulas — were proved). -/
 theorem C01_fold_sound (op : Op) (hp : Proven op = true) (vs : List CVal) (hwt : Claripy.Props.C04.WT op vs)
     (hvs : ∀ v ∈ vs, v.Canon) (c : CVal) (h : foldOp op vs = .ok c) : applyOp op (vs.map CVal.toVal) = c.toVal :=
   foldOp_sound op hp vs hwt hvs c h
+
+/-- the same without the (now trivial) side condition -/
+theorem C01_fold_sound_all (op : Op) (vs : List CVal) (hwt : Claripy.Props.C04.WT op vs)
+    (hvs : ∀ v ∈ vs, v.Canon) (c : CVal) (h : foldOp op vs = .ok c) : applyOp op (vs.map CVal.toVal) = c.toVal :=
+  foldOp_sound op (by cases op <;> rfl) vs hwt hvs c h
 
 /-- Rewrites of the associative-commutative n-ary nodes (`__add__ __mul__ __and__ __or__ __xor__`: flattening of nested
 nodes, any reordering, merging of literals, cancelling equal `__xor__` operands, dropping repeated `__and__`/`__or__`
